@@ -540,7 +540,7 @@ static AnyRunner* make(const std::string& key, const std::string& ps) {
 }
 
 // per-case CPU-time watchdog (load independent): a call that does not return within the budget (argv[1] seconds of CPU time of
-// this process, default 20) ends the process with the line CPU-BUDGET-EXCEEDED in place of the answer and exit code 97; the check
+// this process, default 5) ends the process with the line CPU-BUDGET-EXCEEDED in place of the answer and exit code 97; the check
 // then re-runs that one case alone with a larger budget before it reports "does not return"
 static void on_cpu_budget(int) { const char m[] = "CPU-BUDGET-EXCEEDED\n"; ssize_t w = write(1, m, sizeof(m) - 1); (void)w; _exit(97); }
 static void arm_cpu_budget(long secs) {
@@ -549,7 +549,7 @@ static void arm_cpu_budget(long secs) {
 }
 
 int main(int argc, char** argv) {
-    long budget = argc > 1 ? atol(argv[1]) : 20; if (budget <= 0) budget = 20;
+    long budget = argc > 1 ? atol(argv[1]) : 5; if (budget <= 0) budget = 5;
     signal(SIGPROF, on_cpu_budget);
     std::cout << "#thr " << KARA_THRESHOLD << " " << SQR_THRESHOLD << "\n";
     std::map<std::string, AnyRunner*> doms;
